@@ -231,7 +231,7 @@ void Interpret::interp(ASTNode& n) {
                             main_solver->insertFormula(tr);
                             notify_success();
                         } catch (ApiException const & e) {
-                            notify_formatted(true, e.what());
+                            notify_formatted(true, "%s", e.what());
                         }
                     }
                 } else {
@@ -646,7 +646,7 @@ bool Interpret::getAssignment() const {
     }
     ss.seekp(-1, std::ios::cur);
     ss << ')';
-    notify_formatted(false, ss.str().c_str());
+    notify_formatted(false, "%s", ss.str().c_str());
     return true;
 }
 
@@ -1166,7 +1166,7 @@ int Interpret::interpPipe() {
             // obtain the error string
             char const * err_str = strerror(errno);
             // format the error
-            notify_formatted(true, err_str);
+            notify_formatted(true, "%s", err_str);
             break;
         }
 
